@@ -18,23 +18,42 @@ from harness.simbus import Hub
 
 PROPERTY = "C09"
 LEVEL = "exploration"
-RULE = ("case = (RPDO|TPDO, PDO number 1..512, COB-ID over 1..0x7FF and 0x800..0x1FFFFFFF, enabled, RTR "
-        "allowed, transmission type 0..255, inhibit / event / SYNC-start each absent-from-dictionary | "
-        "present-unset | present-with-value, mapping of 0..8 dictionary objects totalling <= 64 bits, device "
-        "pre-state factory-invalid | enabled with another mapping and COB-ID, configuration source: "
-        "attributes+add_variable | read(from_od=True) from DCF values / EDS defaults | load_configuration() | "
-        "read() from the live device then modified). Oracle: (1) the strict device refused no write, (2) "
-        "trace predicate: first write invalidates (sub 1, bit 31), count zeroed before any entry, entries 1..n "
-        "in order as index<<16|sub<<8|len, count n after the last entry, validating COB-ID write last and iff "
-        "enabled, bit 30 <=> RTR not allowed, (3) device store decodes to the intended configuration, (4) a "
-        "fresh RemoteNode on a third network reads the same COB-ID, flags, type, mapping (and inhibit/event/"
-        "SYNC start for types 254/255), (5) that node is subscribed to the COB-ID iff enabled. Non-trivial = "
-        "pre-state enabled, >= 2 mapped objects, a 29-bit id, or a zero-valued DCF parameter over a non-zero "
+RULE = ("case = ONE dictionary with application objects (VAR, RECORD members, ARRAY elements - declared ones and "
+        "elements beyond the declared sub-indices that the dictionary serves from element 1, strings/DOMAIN with "
+        "an explicit length) and 1..4 (thorough: ..6) PDOs, each = (RPDO|TPDO, PDO number 1..512, COB-ID over "
+        "1..0x7FF and 0x800..0x1FFFFFFF, enabled, RTR allowed, transmission type 0..255, inhibit / event / "
+        "SYNC-start each absent-from-dictionary | present-unset | present-with-value, mapping of 0..8 dictionary "
+        "objects totalling <= 64 bits, own strict device model with pre-state factory-invalid | enabled with "
+        "another mapping and COB-ID). Dictionaries with several PDOs: the same number in both directions, several "
+        "numbers of one direction, free mixes, some enabled and some not, distinct COB-IDs. Configuration source: "
+        "attributes+add_variable (object/member by number, name, dotted name, name+number) | read(from_od=True) "
+        "from DCF values / EDS defaults (once or twice) | load_configuration() | read() from the live device then "
+        "every attribute overwritten | read() from the live device (once or twice) then a subset of the attributes "
+        "(possibly none) changed. Routes for read(from_od)/read()/save()/read-back: each PdoMap | node.pdo | "
+        "node.rpdo+node.tpdo in either order. Small directed families (several PDOs x source x route; ARRAY "
+        "elements x source x add_variable form) are enumerated, the rest is Hypothesis-driven. Oracle, per PDO of "
+        "the dictionary: (1) the strict device refused no write, (2) trace predicate on the writes its objects "
+        "received: not empty, first write invalidates (sub 1, bit 31), count zeroed before any entry, only entry "
+        "writes between the zeroing and the final count, every entry 1..n ends up as index<<16|sub<<8|len "
+        "(order and repetition free, entries above n only written as 0), count n after the last entry (for an "
+        "empty mapping the zeroing write may be the only count write), validating COB-ID write last and iff "
+        "enabled, every COB-ID write carries the id and bit 30 <=> RTR not allowed, (3) device store decodes to the "
+        "intended configuration (for the live-device source: the CiA 301 decoding of the pre-state plus the "
+        "changes), (4) a fresh RemoteNode on a third network reads the same COB-ID, flags, type, mapping (and "
+        "inhibit/event/SYNC start for types 254/255), (5) that node is subscribed to the COB-ID iff enabled. "
+        "Writes of different PDOs may interleave freely. Non-trivial = several PDOs, pre-state enabled, >= 2 "
+        "mapped objects, an ARRAY element mapped, a 29-bit id, or a zero-valued DCF parameter over a non-zero "
         "default; distinct = canonical JSON.")
 ASSUMPTIONS = [
     "a strict device accepts invalidate-and-change in one COB-ID write (real strict stacks do)",
     "bit 29 (frame format) of the COB-ID entry is not modelled: canopen strips it on read and never writes it",
     "COB-IDs that collide with the node's own SDO/heartbeat/EMCY/LSS ids are not generated",
+    "every PDO the dictionary declares has a configuration (a PdoMap whose COB-ID was never set is not saved) "
+    "and the PDOs of one dictionary have pairwise different COB-IDs",
+    "an ARRAY element beyond the declared sub-indices is a dictionary object (ODArray serves it from element 1, "
+    "as for a CompactSubObj EDS); such elements are addressed by number only",
+    "after read() from the live device the saving node's own subscription is not judged (it is subscribed to "
+    "the device's previous COB-ID as well)",
 ]
 BUDGET = {"quick": 150, "thorough": 420}
 NODE = 4
@@ -167,15 +186,23 @@ class RefPdoDevice:
         return 0x06090011
 
 
-def attach_device(srv, dev):
+def attach_devices(srv, devs):
+    """One SDO server in front of several PDOs: every PDO has its own strict device model."""
+    by_index = {}
+    for dev in devs:
+        by_index[dev.com] = dev
+        by_index[dev.map] = dev
+
     def rh(index, sub):
-        return dev.read(index, sub)
+        dev = by_index.get(index)
+        return None if dev is None else dev.read(index, sub)
 
     def wh(index, sub, data):
-        r = dev.write(index, sub, data)
-        if r is None:
+        dev = by_index.get(index)
+        if dev is None:
             return None
-        if r == "stored":
+        r = dev.write(index, sub, data)
+        if r is None or r == "stored":
             return None
         return r
 
@@ -183,37 +210,79 @@ def attach_device(srv, dev):
     srv.write_hook = wh
 
 
+def attach_device(srv, dev):
+    attach_devices(srv, [dev])
+
+
+# ---- case layout -----------------------------------------------------------------
+# A case describes ONE dictionary (application objects + the PDOs it declares), one configuration
+# source and the API routes.  Single-PDO cases are flat (the PDO's keys sit in the case itself);
+# cases with several PDOs carry them in case["pdos"].
+PKEYS = ("dir", "number", "dict_subs", "device_subs", "cfg", "pre", "od_values", "zero_over_default",
+         "intended", "changes")
+OPT = (("inhibit_time", 3, 0xFFFF), ("event_timer", 5, 0xFFFF), ("sync_start_value", 6, 240))
+ROUTES = ("each", "pdo", "rpdo_tpdo", "tpdo_rpdo")
+
+
+def od_key(s):
+    where, sub = s.split(":")
+    return where, int(sub)
+
+
+def _normalise(case):
+    case = dict(case)
+    if "pdos" in case:
+        pdos = [dict(p) for p in case["pdos"]]
+    else:
+        pdos = [{k: case[k] for k in PKEYS if k in case}]
+    for p in pdos:
+        if p.get("od_values"):
+            p["od_values"] = {od_key(k) if isinstance(k, str) else k: v for k, v in p["od_values"].items()}
+    case["pdos"] = pdos
+    return case
+
+
 # ---- dictionary for the client -------------------------------------------------
-def client_od(case):
-    """PDO objects (with optional subs per case) + application objects."""
-    cfg = case
-    com, mp = com_map_index(cfg)
+def pdo_objects(p):
+    """Communication record and mapping array of one PDO (optional subs per case, DCF values / defaults)."""
+    com, mp = com_map_index(p)
     members = [{"sub": 0, "name": "n", "dt": rc.UNSIGNED8, "access": "ro"},
                {"sub": 1, "name": "COB-ID", "dt": rc.UNSIGNED32},
                {"sub": 2, "name": "Transmission type", "dt": rc.UNSIGNED8}]
     for sub, name, dt in ((3, "Inhibit time", rc.UNSIGNED16), (5, "Event timer", rc.UNSIGNED16),
                           (6, "SYNC start value", rc.UNSIGNED8)):
-        if sub in cfg["dict_subs"]:
+        if sub in p["dict_subs"]:
             members.append({"sub": sub, "name": name, "dt": dt})
     mapm = [{"sub": 0, "name": "n", "dt": rc.UNSIGNED8}] + \
            [{"sub": s, "name": f"entry {s}", "dt": rc.UNSIGNED32} for s in range(1, 9)]
-    od_values = cfg.get("od_values")
-    if od_values:
-        for m in members + mapm:
-            key = ("com" if m in members else "map", m["sub"])
-        for (where, sub), pair in od_values.items():
-            target = members if where == "com" else mapm
-            for m in target:
-                if m["sub"] == sub:
-                    if pair.get("default") is not None:
-                        m["default"] = pair["default"]
-                    if pair.get("value") is not None:
-                        m["value"] = pair["value"]
-    spec = [{"kind": "record", "index": com, "name": "PDO comm", "members": members},
-            {"kind": "array", "index": mp, "name": "PDO map", "members": mapm}]
-    for o in cfg["app"]:
+    for (where, sub), pair in (p.get("od_values") or {}).items():
+        target = members if where == "com" else mapm
+        for m in target:
+            if m["sub"] == sub:
+                if pair.get("default") is not None:
+                    m["default"] = pair["default"]
+                if pair.get("value") is not None:
+                    m["value"] = pair["value"]
+    return [{"kind": "record", "index": com, "name": f"PDO comm {com:04x}", "members": members},
+            {"kind": "array", "index": mp, "name": f"PDO map {mp:04x}", "members": mapm}]
+
+
+def client_od(case):
+    """PDO objects of every PDO of the case + application objects (VAR, RECORD, ARRAY)."""
+    case = _normalise(case)
+    spec = []
+    for p in case["pdos"]:
+        spec.extend(pdo_objects(p))
+    for o in case["app"]:
         if o["kind"] == "var":
             spec.append({"kind": "var", "index": o["index"], "name": o["name"], "dt": o["dt"], "pdo": True})
+        elif o["kind"] == "array":
+            # an ARRAY declares sub 0 and the first `declared` elements only (as a CompactSubObj EDS does);
+            # the dictionary serves every further element from the first one
+            spec.append({"kind": "array", "index": o["index"], "name": o["name"], "members":
+                         [{"sub": 0, "name": "n", "dt": rc.UNSIGNED8}] +
+                         [{"sub": s, "name": f"m{s}", "dt": o["dt"], "pdo": True}
+                          for s in range(1, o["declared"] + 1)]})
         else:
             spec.append({"kind": "record", "index": o["index"], "name": o["name"], "members":
                          [{"sub": 0, "name": "n", "dt": rc.UNSIGNED8}] +
@@ -245,187 +314,363 @@ def app_entries(cfg):
     return out
 
 
-def od_key(s):
-    where, sub = s.split(":")
-    return where, int(sub)
+def _word(e):
+    return (e[0] << 16) | (e[1] << 8) | e[2]
+
+
+def decode_pre(p):
+    """The configuration a device in the pre-state of `p` holds, decoded per CiA 301 (what a save of
+    'the configuration taken from the live device' has to write back)."""
+    pre = p["pre"]
+    if pre["enabled"]:
+        cob, ttype, entries = pre["cob"], pre["type"], pre["entries"]
+    else:
+        cob, ttype, entries = INVALID | pre["cob"], 255, []
+    out = {"cob_id": cob & 0x1FFFFFFF, "enabled": not cob & INVALID, "rtr_allowed": not cob & NO_RTR,
+           "trans_type": ttype, "map": [[e >> 16, (e >> 8) & 0xFF, e & 0xFF] for e in entries]}
+    if ttype >= 254:
+        for (name, sub, hi), short in zip(OPT, ("inhibit", "event", "sync")):
+            if sub in p["dict_subs"] and sub in p["device_subs"]:
+                out[name] = pre.get(short, 0)
+    return out
+
+
+def _hx(v):
+    return "None" if v is None else f"{v:#x}"
+
+
+def _via(node, pmaps, route, method, **kw):
+    """Call read()/save() on the PDOs of `node` through one of the public routes."""
+    if route == "each":
+        for pm in pmaps:
+            getattr(pm, method)(**kw)
+    elif route == "pdo":
+        getattr(node.pdo, method)(**kw)
+    elif route == "rpdo_tpdo":
+        getattr(node.rpdo, method)(**kw)
+        getattr(node.tpdo, method)(**kw)
+    elif route == "tpdo_rpdo":
+        getattr(node.tpdo, method)(**kw)
+        getattr(node.rpdo, method)(**kw)
+    else:
+        raise ValueError(route)
 
 
 def run_case(case) -> Outcome:
     import canopen
-    case = dict(case)
-    if case.get("od_values"):
-        case["od_values"] = {od_key(k) if isinstance(k, str) else k: v for k, v in case["od_values"].items()}
-    com, mp = com_map_index(case)
+    case = _normalise(case)
+    pdos = case["pdos"]
+    multi = len(pdos) > 1
+    src = case["source"]
+    cfg_route = case.get("cfg_route", "each")
+    save_route = case.get("save_route", "each")
+    read_route = case.get("read_route", "each")
     hub = Hub()
     srv = RefSdoServer(0x600 + NODE, 0x580 + NODE)
     srv.attach(hub)
-    dev = RefPdoDevice(com, mp, case["device_subs"], app_entries(case))
-    attach_device(srv, dev)
-    pre = case["pre"]
-    if pre["enabled"]:
-        dev.cob = pre["cob"]
-        dev.type = pre["type"]
-        dev.entries[:len(pre["entries"])] = pre["entries"]
-        dev.count = len(pre["entries"])
-    else:
-        dev.cob = INVALID | pre["cob"]
-    dev.inhibit, dev.event, dev.sync = pre.get("inhibit", 0), pre.get("event", 0), pre.get("sync", 0)
+    mappable = app_entries(case)
+    devs = []
+    for p in pdos:
+        com, mp = com_map_index(p)
+        dev = RefPdoDevice(com, mp, p["device_subs"], mappable)
+        pre = p["pre"]
+        if pre["enabled"]:
+            dev.cob = pre["cob"]
+            dev.type = pre["type"]
+            dev.entries[:len(pre["entries"])] = pre["entries"]
+            dev.count = len(pre["entries"])
+        else:
+            dev.cob = INVALID | pre["cob"]
+        dev.inhibit, dev.event, dev.sync = pre.get("inhibit", 0), pre.get("event", 0), pre.get("sync", 0)
+        devs.append(dev)
+    attach_devices(srv, devs)
 
     net, port = hub.attach("master")
     node = canopen.RemoteNode(NODE, build_od(client_od(case)))
     net.add_node(node)
     node.sdo.RESPONSE_TIMEOUT = 0.05
     D = []
-    tag = (f"{case['dir']}{case['number']} source {case['source']} pre-enabled {pre['enabled']} "
-           f"cfg {case['cfg']}")
 
-    def bad(kind, detail):
-        D.append(Discrepancy(f"C09/{kind}", f"{tag}: {detail}"))
+    def label(p):
+        return f"{p['dir']}{p['number']}"
 
-    try:
-        pmap = (node.rpdo if case["dir"] == "rpdo" else node.tpdo)[case["number"]]
-    except Exception as e:
-        bad("map-missing", f"the dictionary describes {case['dir'].upper()} {case['number']} but the node object "
-                           f"has no such map: {type(e).__name__}: {e}")
-        return Outcome(True, "map-missing", D)
+    if multi:
+        head = (f"{len(pdos)} PDOs [{' '.join(label(p) for p in pdos)}] source {src} routes "
+                f"{cfg_route}/{save_route}/{read_route}")
+    else:
+        head = ""
 
-    cfg = case["cfg"]
-    src = case["source"]
-    intended = dict(cfg)
+    def tag(p):
+        return (f"{head + ': ' if head else ''}{label(p)} source {src} pre-enabled {p['pre']['enabled']} "
+                f"cfg {p['cfg']}" + (f" changes {p.get('changes')} reads {case.get('reads', 1)}"
+                                     if src == "live_keep" else ""))
+
+    def bad(p, kind, detail):
+        D.append(Discrepancy(f"C09/{kind}", f"{tag(p)}: {detail}"))
+
+    pmaps = []
+    for p in pdos:
+        try:
+            pmaps.append((node.rpdo if p["dir"] == "rpdo" else node.tpdo)[p["number"]])
+        except Exception as e:
+            bad(p, "map-missing", f"the dictionary describes {p['dir'].upper()} {p['number']} but the node object "
+                                  f"has no such map: {type(e).__name__}: {e}")
+            return Outcome(True, "map-missing", D)
+
+    def clear_logs():
+        for dev in devs:
+            dev.log.clear()
+
+    cur = [None]         # the PDO being configured, for the report only
+
+    def each_pdo():
+        for p, pm in zip(pdos, pmaps):
+            cur[0] = p
+            yield p, pm
+        cur[0] = None
+
     try:
         if src == "attrs":
-            _apply_attrs(pmap, cfg, case)
-            dev.log.clear()
-            pmap.save()
+            for p, pm in each_pdo():
+                _apply_attrs(pm, p["cfg"], case)
+            clear_logs()
+            _via(node, pmaps, save_route, "save")
         elif src == "live_modify":
-            pmap.read()
-            _apply_attrs(pmap, cfg, case)
-            dev.log.clear()
-            pmap.save()
+            _via(node, pmaps, cfg_route, "read")
+            for p, pm in each_pdo():
+                _apply_attrs(pm, p["cfg"], case)
+            clear_logs()
+            _via(node, pmaps, save_route, "save")
+        elif src == "live_keep":
+            # the configuration is the one the live device holds (read once or repeatedly), with some
+            # attributes changed afterwards
+            for _ in range(case.get("reads", 1)):
+                _via(node, pmaps, cfg_route, "read")
+            for p, pm in each_pdo():
+                _apply_changes(pm, p, case)
+            clear_logs()
+            _via(node, pmaps, save_route, "save")
         elif src == "from_od":
-            pmap.read(from_od=True)
-            dev.log.clear()
-            pmap.save()
+            for _ in range(case.get("reads", 1)):
+                _via(node, pmaps, cfg_route, "read", from_od=True)
+            clear_logs()
+            _via(node, pmaps, save_route, "save")
         elif src == "load_configuration":
-            dev.log.clear()
+            clear_logs()
             node.load_configuration()
         else:
             raise ValueError(src)
     except Exception as e:
-        bad("save-raises", f"{type(e).__name__}: {e}; device refused {dev.refused[:3]}")
+        refused = [r for dev in devs for r in dev.refused][:3]
+        culprit = cur[0] or next((p for p, dev in zip(pdos, devs) if dev.refused), pdos[0])
+        bad(culprit, "save-raises", f"{type(e).__name__}: {e}; device refused {refused}")
         return Outcome(True, f"{src}/raises", D)
-    if src in ("from_od", "load_configuration"):
-        intended = case["intended"]
-    if dev.refused:
-        i, s, v, code = dev.refused[0]
-        bad("strict-device-refused", f"write {i:04x}:{s:02x}={v:#x} refused with {code:08x}; trace "
-                                     f"{[(hex(a), b, hex(c)) for a, b, c, d in dev.log]}")
-        return Outcome(True, f"{src}/refused", D)
-    # ---- (2) trace predicate ------------------------------------------------
-    trace = [(i, s, v) for (i, s, v, ok) in dev.log]
-    cob_id = intended["cob_id"]
-    flags = 0 if intended["rtr_allowed"] else NO_RTR
-    tr = [f"{i:04x}:{s:02x}={v:#x}" for i, s, v in trace]
-    if not trace:
-        bad("trace/empty", "save wrote nothing")
-    else:
-        i0, s0, v0 = trace[0]
-        if (i0, s0) != (com, 1) or not v0 & INVALID:
-            bad("trace/not-invalidated-first", f"first write is {tr[0]}; trace {tr}")
-        cobw = [(k, v) for k, (i, s, v) in enumerate(trace) if (i, s) == (com, 1)]
-        for k, v in cobw:
-            if (v & 0x1FFFFFFF) != cob_id:
-                bad("trace/cob-id", f"COB-ID write {v:#x} does not carry id {cob_id:#x}")
-            if bool(v & NO_RTR) != (not intended["rtr_allowed"]):
-                bad("trace/rtr-bit", f"COB-ID write {v:#x}: bit 30 must be set exactly when RTR is not allowed "
-                                     f"(rtr_allowed={intended['rtr_allowed']})")
-        maps = [(k, s, v) for k, (i, s, v) in enumerate(trace) if i == mp]
-        want_entries = [(e[0] << 16) | (e[1] << 8) | e[2] for e in intended["map"]]
-        n = len(want_entries)
-        if not maps or maps[0][1] != 0 or maps[0][2] != 0:
-            bad("trace/count-not-zeroed-first", f"mapping writes {[(s, hex(v)) for k, s, v in maps]}")
+
+    intended = []
+    for p in pdos:
+        if src in ("from_od", "load_configuration"):
+            intended.append(p["intended"])
+        elif src == "live_keep":
+            want = decode_pre(p)
+            for key in p.get("changes") or []:
+                if p["cfg"].get(key) is not None:
+                    want[key] = p["cfg"][key]
+            intended.append(want)
         else:
-            body = maps[1:]
-            got_entries = [(s, v) for k, s, v in body[:-1]] if body else []
-            if not body or body[-1][1] != 0 or body[-1][2] != n:
-                bad("trace/count-not-set-last", f"mapping writes {[(s, hex(v)) for k, s, v in maps]}, want "
-                                                f"count {n} after the entries")
-            elif got_entries != [(k + 1, v) for k, v in enumerate(want_entries)]:
-                bad("trace/entries", f"entry writes {[(s, hex(v)) for s, v in got_entries]} want "
-                                     f"{[(k + 1, hex(v)) for k, v in enumerate(want_entries)]}")
-        validating = [(k, v) for k, v in cobw if not v & INVALID]
-        if intended["enabled"]:
-            if len(validating) != 1 or validating[0][0] != len(trace) - 1:
-                bad("trace/validate-last", f"enabled PDO: validating COB-ID write must be the last write; trace {tr}")
-        elif validating:
-            bad("trace/validated-although-disabled", f"trace {tr}")
-    if D:
-        return Outcome(True, f"{src}/trace", D)
+            intended.append(dict(p["cfg"]))
+
+    # ---- (1) nothing refused ---------------------------------------------------
+    for p, dev in zip(pdos, devs):
+        if dev.refused:
+            i, s, v, code = dev.refused[0]
+            bad(p, "strict-device-refused", f"write {i:04x}:{s:02x}={v:#x} refused with {code:08x}; trace "
+                                            f"{[(hex(a), b, hex(c)) for a, b, c, d in dev.log]}")
+            return Outcome(True, f"{src}/refused", D)
+    # ---- (2) trace predicate, per PDO -------------------------------------------
+    for p, dev, want in zip(pdos, devs, intended):
+        _check_trace(p, dev, want, lambda kind, detail, p=p: bad(p, kind, detail))
+        if D:
+            return Outcome(True, f"{src}/trace", D)
     # ---- (3) device store -----------------------------------------------------
-    if (dev.cob & 0x1FFFFFFF) != cob_id or bool(dev.cob & INVALID) == intended["enabled"] or \
-            bool(dev.cob & NO_RTR) == intended["rtr_allowed"]:
-        bad("device/cob", f"device COB-ID entry {dev.cob:#x}")
-    if intended.get("trans_type") is not None and dev.type != intended["trans_type"]:
-        bad("device/type", f"device type {dev.type} want {intended['trans_type']}")
-    for attr, sub, name in ((dev.inhibit, 3, "inhibit_time"), (dev.event, 5, "event_timer"),
-                            (dev.sync, 6, "sync_start_value")):
-        if intended.get(name) is not None and sub in case["device_subs"] and attr != intended[name]:
-            bad(f"device/{name}", f"device holds {attr} want {intended[name]}")
-    if dev.count != len(intended["map"]) or dev.entries[:dev.count] != \
-            [(e[0] << 16) | (e[1] << 8) | e[2] for e in intended["map"]]:
-        bad("device/mapping", f"device mapping {dev.count} {[hex(e) for e in dev.entries[:dev.count]]}")
-    # subscription of the saving node
-    subs_cb = net.subscribers.get(cob_id, [])
-    if (pmap.on_message in subs_cb) != bool(intended["enabled"]) and src != "live_modify":
-        bad("subscribe/saving-node", f"saving node subscribed={pmap.on_message in subs_cb}, enabled="
-                                     f"{intended['enabled']}")
-    if D:
-        return Outcome(True, f"{src}/device", D)
+    for p, dev, want, pmap in zip(pdos, devs, intended, pmaps):
+        cob_id = want["cob_id"]
+        if (dev.cob & 0x1FFFFFFF) != cob_id or bool(dev.cob & INVALID) == want["enabled"] or \
+                bool(dev.cob & NO_RTR) == want["rtr_allowed"]:
+            bad(p, "device/cob", f"device COB-ID entry {dev.cob:#x}")
+        if want.get("trans_type") is not None and dev.type != want["trans_type"]:
+            bad(p, "device/type", f"device type {dev.type} want {want['trans_type']}")
+        for attr, sub, name in ((dev.inhibit, 3, "inhibit_time"), (dev.event, 5, "event_timer"),
+                                (dev.sync, 6, "sync_start_value")):
+            if want.get(name) is not None and sub in p["device_subs"] and attr != want[name]:
+                bad(p, f"device/{name}", f"device holds {attr} want {want[name]}")
+        if dev.count != len(want["map"]) or dev.entries[:dev.count] != [_word(e) for e in want["map"]]:
+            bad(p, "device/mapping", f"device mapping {dev.count} {[hex(e) for e in dev.entries[:dev.count]]}")
+        # subscription of the saving node (not after a live read: that one subscribed to the old id)
+        subs_cb = net.subscribers.get(cob_id, [])
+        if (pmap.on_message in subs_cb) != bool(want["enabled"]) and src not in ("live_modify", "live_keep"):
+            bad(p, "subscribe/saving-node", f"saving node subscribed={pmap.on_message in subs_cb}, enabled="
+                                            f"{want['enabled']}")
+        if D:
+            return Outcome(True, f"{src}/device", D)
     # ---- (4)+(5) read back on a fresh node ---------------------------------------
     net2, port2 = hub.attach("second")
     node2 = canopen.RemoteNode(NODE, build_od(client_od(case)))
     net2.add_node(node2)
     node2.sdo.RESPONSE_TIMEOUT = 0.05
-    p2 = (node2.rpdo if case["dir"] == "rpdo" else node2.tpdo)[case["number"]]
     try:
-        p2.read()
+        p2s = [(node2.rpdo if p["dir"] == "rpdo" else node2.tpdo)[p["number"]] for p in pdos]
+        _via(node2, p2s, read_route, "read")
     except Exception as e:
-        bad("readback-raises", f"{type(e).__name__}: {e}")
+        bad(pdos[0], "readback-raises", f"{type(e).__name__}: {e}")
         return Outcome(True, f"{src}/readback", D)
-    if p2.cob_id != cob_id:
-        bad("readback/cob_id", f"read {p2.cob_id:#x} want {cob_id:#x}")
-    if p2.enabled != intended["enabled"]:
-        bad("readback/enabled", f"read {p2.enabled}")
-    if p2.rtr_allowed != intended["rtr_allowed"]:
-        bad("readback/rtr_allowed", f"read {p2.rtr_allowed} want {intended['rtr_allowed']}")
-    tt = intended.get("trans_type")
-    if tt is not None and p2.trans_type != tt:
-        bad("readback/trans_type", f"read {p2.trans_type} want {tt}")
-    got_map = [(v.index, v.subindex, v.length) for v in p2.map]
-    if got_map != [tuple(e) for e in intended["map"]]:
-        bad("readback/mapping", f"read {got_map} want {intended['map']}")
-    if p2.trans_type is not None and p2.trans_type >= 254:
-        for name, sub in (("inhibit_time", 3), ("event_timer", 5), ("sync_start_value", 6)):
-            if intended.get(name) is not None and sub in case["device_subs"] and sub in case["dict_subs"]:
-                if getattr(p2, name) != intended[name]:
-                    bad(f"readback/{name}", f"read {getattr(p2, name)} want {intended[name]}")
-    subscribed = p2.on_message in net2.subscribers.get(cob_id, [])
-    if subscribed != bool(intended["enabled"]):
-        bad("readback/subscription", f"fresh node subscribed={subscribed}, enabled={intended['enabled']}")
-    nontrivial = pre["enabled"] or len(intended["map"]) >= 2 or cob_id > 0x7FF or case.get("zero_over_default", False)
-    return Outcome(nontrivial, f"{src}/{case['dir']}/{'pre-enabled' if pre['enabled'] else 'factory'}/"
-                               f"{'29bit' if cob_id > 0x7FF else '11bit'}/map{len(intended['map'])}", D)
+    for p, want, p2 in zip(pdos, intended, p2s):
+        cob_id = want["cob_id"]
+        if p2.cob_id != cob_id:
+            bad(p, "readback/cob_id", f"read {_hx(p2.cob_id)} want {cob_id:#x}")
+        if p2.enabled != want["enabled"]:
+            bad(p, "readback/enabled", f"read {p2.enabled}")
+        if p2.rtr_allowed != want["rtr_allowed"]:
+            bad(p, "readback/rtr_allowed", f"read {p2.rtr_allowed} want {want['rtr_allowed']}")
+        tt = want.get("trans_type")
+        if tt is not None and p2.trans_type != tt:
+            bad(p, "readback/trans_type", f"read {p2.trans_type} want {tt}")
+        got_map = [(v.index, v.subindex, v.length) for v in p2.map]
+        if got_map != [tuple(e) for e in want["map"]]:
+            bad(p, "readback/mapping", f"read {got_map} want {want['map']}")
+        if p2.trans_type is not None and p2.trans_type >= 254:
+            for name, sub in (("inhibit_time", 3), ("event_timer", 5), ("sync_start_value", 6)):
+                if want.get(name) is not None and sub in p["device_subs"] and sub in p["dict_subs"]:
+                    if getattr(p2, name) != want[name]:
+                        bad(p, f"readback/{name}", f"read {getattr(p2, name)} want {want[name]}")
+        subscribed = p2.on_message in net2.subscribers.get(cob_id, [])
+        if subscribed != bool(want["enabled"]):
+            bad(p, "readback/subscription", f"fresh node subscribed={subscribed}, enabled={want['enabled']}")
+        if D:
+            break
+    array_mapped = _maps_array_member(case, intended)
+    if multi:
+        dirs = {p["dir"] for p in pdos}
+        both = {p["number"] for p in pdos if p["dir"] == "rpdo"} & {p["number"] for p in pdos if p["dir"] == "tpdo"}
+        shape = "same-number" if both else ("both-directions" if len(dirs) == 2 else f"{pdos[0]['dir']}-only")
+        nen = sum(1 for w in intended if w["enabled"])
+        return Outcome(True, f"multi/{src}/{shape}/{'all' if nen == len(pdos) else 'some' if nen else 'none'}-enabled"
+                             f"{'/array-' + array_mapped if array_mapped else ''}", D)
+    p, want = pdos[0], intended[0]
+    pre = p["pre"]
+    nontrivial = pre["enabled"] or len(want["map"]) >= 2 or want["cob_id"] > 0x7FF or \
+        p.get("zero_over_default", False) or array_mapped
+    extra = ""
+    if src == "live_keep":
+        extra = f"/reads{case.get('reads', 1)}/{'changed' if p.get('changes') else 'unchanged'}"
+    elif src == "from_od" and case.get("reads", 1) > 1:
+        extra = f"/reads{case['reads']}"
+    return Outcome(nontrivial, f"{src}/{p['dir']}/{'pre-enabled' if pre['enabled'] else 'factory'}/"
+                               f"{'29bit' if want['cob_id'] > 0x7FF else '11bit'}/map{len(want['map'])}"
+                               f"{'/array-' + array_mapped if array_mapped else ''}{extra}", D)
+
+
+def _maps_array_member(case, intended):
+    arrays = {o["index"]: o["declared"] for o in case["app"] if o["kind"] == "array"}
+    kinds = set()
+    for want in intended:
+        for e in want["map"]:
+            if e[0] in arrays:
+                kinds.add("beyond" if e[1] > arrays[e[0]] else "declared")
+    return "+".join(sorted(kinds))
+
+
+def _check_trace(p, dev, intended, bad):
+    """Oracle (2), straight from the property text, on the writes ONE PDO's objects received."""
+    com, mp = com_map_index(p)
+    trace = [(i, s, v) for (i, s, v, ok) in dev.log]
+    cob_id = intended["cob_id"]
+    tr = [f"{i:04x}:{s:02x}={v:#x}" for i, s, v in trace]
+    if not trace:
+        bad("trace/empty", "save wrote nothing to the objects of this PDO")
+        return
+    i0, s0, v0 = trace[0]
+    if (i0, s0) != (com, 1) or not v0 & INVALID:
+        bad("trace/not-invalidated-first", f"first write is {tr[0]}; trace {tr}")
+    cobw = [(k, v) for k, (i, s, v) in enumerate(trace) if (i, s) == (com, 1)]
+    for k, v in cobw:
+        if (v & 0x1FFFFFFF) != cob_id:
+            bad("trace/cob-id", f"COB-ID write {v:#x} does not carry id {cob_id:#x}")
+        if bool(v & NO_RTR) != (not intended["rtr_allowed"]):
+            bad("trace/rtr-bit", f"COB-ID write {v:#x}: bit 30 must be set exactly when RTR is not allowed "
+                                 f"(rtr_allowed={intended['rtr_allowed']})")
+    maps = [(k, s, v) for k, (i, s, v) in enumerate(trace) if i == mp]
+    want_entries = [_word(e) for e in intended["map"]]
+    n = len(want_entries)
+    shown = [(s, hex(v)) for k, s, v in maps]
+    if not maps or maps[0][1] != 0 or maps[0][2] != 0:
+        bad("trace/count-not-zeroed-first", f"mapping writes {shown}")
+    elif n == 0 and len(maps) == 1:
+        pass        # empty mapping: the zeroing write already is the count after (no) entries
+    elif len(maps) < 2 or maps[-1][1] != 0 or maps[-1][2] != n:
+        bad("trace/count-not-set-last", f"mapping writes {shown}, want count {n} after the entries")
+    else:
+        # between the zeroing and the final count: entry writes only; the statement fixes neither their
+        # order nor that each is written once - what counts is what every entry holds at the end
+        middle = [(s, v) for k, s, v in maps[1:-1]]
+        last = {}
+        for s, v in middle:
+            last[s] = v
+        if any(s == 0 for s, v in middle):
+            bad("trace/entries", f"count written again between the entries: {shown}")
+        elif [last.get(k + 1) for k in range(n)] != want_entries or any(v != 0 for s, v in last.items() if s > n):
+            bad("trace/entries", f"entry writes {[(s, hex(v)) for s, v in middle]} want "
+                                 f"{[(k + 1, hex(v)) for k, v in enumerate(want_entries)]}")
+    validating = [(k, v) for k, v in cobw if not v & INVALID]
+    if intended["enabled"]:
+        if len(validating) != 1 or validating[0][0] != len(trace) - 1:
+            bad("trace/validate-last", f"enabled PDO: validating COB-ID write must be the last write; trace {tr}")
+    elif validating:
+        bad("trace/validated-although-disabled", f"trace {tr}")
 
 
 def _names(case):
+    """(index, sub) -> (object name, member name | None, kind)."""
     out = {}
     for o in case["app"]:
         if o["kind"] == "var":
-            out[(o["index"], 0)] = (o["name"], None)
+            out[(o["index"], 0)] = (o["name"], None, "var")
+        elif o["kind"] == "array":
+            for m in o["members"]:
+                out[(o["index"], m["sub"])] = (o["name"], f"m{m['sub']}" if m["sub"] <= o["declared"] else None,
+                                               "array")
         else:
             for m in o["members"]:
-                out[(o["index"], m["sub"])] = (o["name"], m["name"])
+                out[(o["index"], m["sub"])] = (o["name"], m["name"], "record")
     return out
+
+
+def _add_map(pmap, entries, case):
+    names = _names(case) if case else {}
+    forms = (case or {}).get("addforms") or []
+    explicit = set()
+    for o in (case or {}).get("app", []):
+        for m in ([o] if o["kind"] == "var" else o["members"]):
+            if m.get("maplen"):
+                explicit.add((o["index"], m.get("sub", 0)))
+    for k, (index, sub, ln) in enumerate(entries):
+        form = forms[k % len(forms)] if forms else "num"
+        if (index, sub) in explicit:
+            form = "num_len"        # an object without a width of its own is mapped with an explicit length
+        oname, mname, kind = names.get((index, sub), (None, None, None))
+        if form == "num_len":
+            pmap.add_variable(index, sub, ln)
+        elif form == "dotted" and mname is not None:
+            pmap.add_variable(f"{oname}.{mname}")              # qualified name, default sub-index
+        elif form == "name" and kind == "var":
+            pmap.add_variable(oname)
+        elif form == "name_member" and mname is not None:
+            pmap.add_variable(oname, mname)
+        elif form == "index_member" and mname is not None:
+            pmap.add_variable(index, mname)
+        elif form in ("name_num", "name", "name_member", "dotted") and oname is not None and kind != "var":
+            pmap.add_variable(oname, sub)                      # object by name, member by number
+        else:
+            pmap.add_variable(index, sub)
 
 
 def _apply_attrs(pmap, cfg, case=None):
@@ -437,35 +682,27 @@ def _apply_attrs(pmap, cfg, case=None):
     pmap.event_timer = cfg.get("event_timer")
     pmap.sync_start_value = cfg.get("sync_start_value")
     pmap.clear()
-    names = _names(case) if case else {}
-    forms = (case or {}).get("addforms") or []
-    explicit = set()
-    for o in (case or {}).get("app", []):
-        for m in ([o] if o["kind"] == "var" else o["members"]):
-            if m.get("maplen"):
-                explicit.add((o["index"], m.get("sub", 0)))
-    for k, (index, sub, ln) in enumerate(cfg["map"]):
-        form = forms[k % len(forms)] if forms else "num"
-        if (index, sub) in explicit:
-            form = "num_len"        # an object without a width of its own is mapped with an explicit length
-        oname, mname = names.get((index, sub), (None, None))
-        if form == "num_len":
-            pmap.add_variable(index, sub, ln)
-        elif form == "dotted" and mname is not None:
-            pmap.add_variable(f"{oname}.{mname}")              # qualified name, default sub-index
-        elif form == "name" and oname is not None and mname is None:
-            pmap.add_variable(oname)
-        elif form == "name_member" and mname is not None:
-            pmap.add_variable(oname, mname)
-        elif form == "index_member" and mname is not None:
-            pmap.add_variable(index, mname)
+    _add_map(pmap, cfg["map"], case)
+
+
+def _apply_changes(pmap, p, case):
+    """live_keep: only the attributes named in p['changes'] are touched after read()."""
+    cfg = p["cfg"]
+    for key in p.get("changes") or []:
+        if cfg.get(key) is None:
+            continue
+        if key == "map":
+            pmap.clear()
+            _add_map(pmap, cfg["map"], case)
         else:
-            pmap.add_variable(index, sub)
+            setattr(pmap, key, cfg[key])
 
 
 # ---- generation ---------------------------------------------------------------------
 RESERVED_IDS = {0x7E4, 0x7E5, 0x580 + NODE, 0x600 + NODE, 0x700 + NODE, 0x80 + NODE, 0}
 PDO_DTS = sorted(rc.INTEGERS) + [rc.REAL32, rc.REAL64]
+SOURCES = ["attrs", "attrs", "live_modify", "live_keep", "from_od", "load_configuration"]
+ADDFORMS = ["num", "num_len", "dotted", "name", "name_member", "index_member", "name_num"]
 
 
 @st.composite
@@ -476,26 +713,7 @@ def cob_ids(draw):
         st.integers(0x800, 0x1FFFFFFF)))
 
 
-@st.composite
-def case_strategy(draw):
-    direction = draw(st.sampled_from(["rpdo", "tpdo"]))
-    number = draw(st.one_of(st.integers(1, 4), st.sampled_from([5, 64, 511, 512]), st.integers(1, 512)))
-    # application objects
-    napp = draw(st.integers(1, 6))
-    idxs = sorted(draw(st.sets(st.integers(0x2000, 0x9FFF), min_size=napp, max_size=napp)))
-    app = []
-    for k, index in enumerate(idxs):
-        if draw(st.integers(0, 5)) == 0:
-            # octet / visible strings and DOMAIN are mapped with the length given in the mapping entry
-            app.append({"kind": "var", "index": index, "name": f"app{k}",
-                        "dt": draw(st.sampled_from([rc.OCTET_STRING, rc.VISIBLE_STRING, rc.DOMAIN])),
-                        "maplen": draw(st.sampled_from([8, 16, 24, 32, 40, 64]))})
-        elif draw(st.booleans()):
-            app.append({"kind": "var", "index": index, "name": f"app{k}", "dt": draw(st.sampled_from(PDO_DTS))})
-        else:
-            subs = sorted(draw(st.sets(st.integers(1, 254), min_size=1, max_size=3)))
-            app.append({"kind": "record", "index": index, "name": f"app{k}", "members":
-                        [{"sub": s, "name": f"m{s}", "dt": draw(st.sampled_from(PDO_DTS))} for s in subs]})
+def _cands(app):
     cands = []
     for o in app:
         if o["kind"] == "var":
@@ -503,39 +721,70 @@ def case_strategy(draw):
         else:
             for m in o["members"]:
                 cands.append((o["index"], m["sub"], _w(m)))
+    return cands
 
-    def draw_map():
-        out, total = [], 0
-        for _ in range(draw(st.integers(0, 8))):
-            fit = [c for c in cands if total + c[2] <= 64]
-            if not fit:
-                break
-            c = draw(st.sampled_from(fit))
-            out.append(list(c))
-            total += c[2]
-        return out
 
+def _draw_app(draw):
+    napp = draw(st.integers(1, 6))
+    idxs = sorted(draw(st.sets(st.integers(0x2000, 0x9FFF), min_size=napp, max_size=napp)))
+    app = []
+    for k, index in enumerate(idxs):
+        pick = draw(st.integers(0, 8))
+        if pick == 0:
+            # octet / visible strings and DOMAIN are mapped with the length given in the mapping entry
+            app.append({"kind": "var", "index": index, "name": f"app{k}",
+                        "dt": draw(st.sampled_from([rc.OCTET_STRING, rc.VISIBLE_STRING, rc.DOMAIN])),
+                        "maplen": draw(st.sampled_from([8, 16, 24, 32, 40, 64]))})
+        elif pick <= 3:
+            app.append({"kind": "var", "index": index, "name": f"app{k}", "dt": draw(st.sampled_from(PDO_DTS))})
+        elif pick <= 6:
+            subs = sorted(draw(st.sets(st.integers(1, 254), min_size=1, max_size=3)))
+            app.append({"kind": "record", "index": index, "name": f"app{k}", "members":
+                        [{"sub": s, "name": f"m{s}", "dt": draw(st.sampled_from(PDO_DTS))} for s in subs]})
+        else:
+            # ARRAY: elements 1..declared are in the dictionary, further ones come from the first element
+            dt = draw(st.sampled_from(PDO_DTS))
+            declared = draw(st.integers(1, 4))
+            subs = sorted(draw(st.sets(st.one_of(st.integers(1, declared), st.integers(1, 8), st.integers(1, 254)),
+                                       min_size=1, max_size=4)))
+            app.append({"kind": "array", "index": index, "name": f"app{k}", "dt": dt, "declared": declared,
+                        "members": [{"sub": s, "dt": dt} for s in subs]})
+    return app
+
+
+def _draw_map(draw, cands):
+    out, total = [], 0
+    for _ in range(draw(st.integers(0, 8))):
+        fit = [c for c in cands if total + c[2] <= 64]
+        if not fit:
+            break
+        c = draw(st.sampled_from(fit))
+        out.append(list(c))
+        total += c[2]
+    return out
+
+
+def _draw_pdo(draw, cands, direction, number, source, taken):
     dict_subs = sorted(draw(st.sets(st.sampled_from([3, 5, 6]))))
     device_subs = sorted(set(dict_subs) | draw(st.sets(st.sampled_from([3, 5, 6]))))
     if draw(st.booleans()):
         device_subs = sorted(draw(st.sets(st.sampled_from([3, 5, 6]))))
-    cfg = {"cob_id": draw(cob_ids()), "enabled": draw(st.booleans()), "rtr_allowed": draw(st.booleans()),
+    cob = draw(cob_ids().filter(lambda v: v not in taken))
+    taken.add(cob)
+    cfg = {"cob_id": cob, "enabled": draw(st.booleans()), "rtr_allowed": draw(st.booleans()),
            "trans_type": draw(st.one_of(st.sampled_from([0, 1, 240, 252, 253, 254, 255]), st.integers(0, 255))),
-           "map": draw_map()}
-    for name, sub, hi in (("inhibit_time", 3, 0xFFFF), ("event_timer", 5, 0xFFFF), ("sync_start_value", 6, 240)):
+           "map": _draw_map(draw, cands)}
+    for name, sub, hi in OPT:
         if sub in dict_subs and sub in device_subs and draw(st.booleans()):
             cfg[name] = draw(st.one_of(st.just(0), st.integers(0, hi)))
     pre_enabled = draw(st.booleans())
     pre = {"enabled": pre_enabled, "cob": draw(cob_ids()), "type": draw(st.integers(0, 255)),
-           "entries": [(e[0] << 16) | (e[1] << 8) | e[2] for e in (draw_map() if pre_enabled else [])],
+           "entries": [_word(e) for e in (_draw_map(draw, cands) if pre_enabled else [])],
            "inhibit": draw(st.integers(0, 1000)), "event": draw(st.integers(0, 1000)), "sync": draw(st.integers(0, 9))}
     if pre_enabled and draw(st.booleans()):
         pre["cob"] |= NO_RTR
-    source = draw(st.sampled_from(["attrs", "attrs", "live_modify", "from_od", "load_configuration"]))
-    case = {"dir": direction, "number": number, "app": app, "dict_subs": dict_subs, "device_subs": device_subs,
-            "cfg": cfg, "pre": pre, "source": source,
-            "addforms": draw(st.lists(st.sampled_from(["num", "num_len", "dotted", "name", "name_member",
-                                                       "index_member"]), min_size=1, max_size=4))}
+    p = {"dir": direction, "number": number, "dict_subs": dict_subs, "device_subs": device_subs,
+         "cfg": cfg, "pre": pre}
     if source == "attrs" and draw(st.integers(0, 3)) == 0:
         cfg["trans_type"] = None
     if source in ("from_od", "load_configuration"):
@@ -543,8 +792,8 @@ def case_strategy(draw):
         raw_cob = cfg["cob_id"] | (0 if cfg["enabled"] else INVALID) | (0 if cfg["rtr_allowed"] else NO_RTR)
         want = {("com", 1): raw_cob, ("com", 2): cfg["trans_type"], ("map", 0): len(cfg["map"])}
         for k, e in enumerate(cfg["map"]):
-            want[("map", k + 1)] = (e[0] << 16) | (e[1] << 8) | e[2]
-        for name, sub in (("inhibit_time", 3), ("event_timer", 5), ("sync_start_value", 6)):
+            want[("map", k + 1)] = _word(e)
+        for name, sub, hi in OPT:
             if sub in dict_subs and sub in device_subs:
                 want[("com", sub)] = cfg.get(name, 0) or 0
                 if cfg["trans_type"] >= 254:
@@ -568,19 +817,196 @@ def case_strategy(draw):
                 odv[f"{key[0]}:{key[1]}"] = {"value": v, "default": other}
                 if v == 0 and other:
                     zero_over = True
-        case["od_values"] = odv
-        case["zero_over_default"] = zero_over
-        case["intended"] = dict(cfg)
+        p["od_values"] = odv
+        p["zero_over_default"] = zero_over
+        p["intended"] = dict(cfg)
         # subs present in the dictionary but not on the device cannot be saved
-        case["dict_subs"] = sorted(set(dict_subs) & set(device_subs))
+        p["dict_subs"] = sorted(set(dict_subs) & set(device_subs))
     else:
         # canopen writes every optional parameter that is set: they must exist on the device
-        for name, sub in (("inhibit_time", 3), ("event_timer", 5), ("sync_start_value", 6)):
+        for name, sub, hi in OPT:
             if sub not in device_subs:
                 cfg.pop(name, None)
+    if source == "live_keep":
+        keys = sorted(k for k, v in cfg.items() if v is not None)
+        p["changes"] = sorted(draw(st.sets(st.sampled_from(keys), max_size=3))) if draw(st.booleans()) else []
+    return p
+
+
+def _draw_reads(draw, case, source):
+    if source in ("live_keep", "from_od"):
+        case["reads"] = draw(st.sampled_from([1, 2]))
+
+
+def _draw_routes(draw, case):
+    case["cfg_route"] = draw(st.sampled_from(ROUTES))
+    case["save_route"] = draw(st.sampled_from(ROUTES))
+    case["read_route"] = draw(st.sampled_from(ROUTES))
+
+
+@st.composite
+def case_strategy(draw):
+    """ONE PDO in the dictionary."""
+    direction = draw(st.sampled_from(["rpdo", "tpdo"]))
+    number = draw(st.one_of(st.integers(1, 4), st.sampled_from([5, 64, 511, 512]), st.integers(1, 512)))
+    app = _draw_app(draw)
+    source = draw(st.sampled_from(SOURCES))
+    p = _draw_pdo(draw, _cands(app), direction, number, source, set())
+    case = dict(p)
+    case.update({"app": app, "source": source,
+                 "addforms": draw(st.lists(st.sampled_from(ADDFORMS), min_size=1, max_size=4))})
+    _draw_reads(draw, case, source)
+    if draw(st.booleans()):
+        _draw_routes(draw, case)
     return case
+
+
+@st.composite
+def multi_strategy(draw, max_pdos=4):
+    """SEVERAL PDOs in one dictionary: the same number in both directions, several numbers of one
+    direction, or a free mix; some enabled, some not; saved and read back through the collection routes."""
+    app = _draw_app(draw)
+    cands = _cands(app)
+    numbers = st.one_of(st.integers(1, 4), st.sampled_from([5, 64, 511, 512]), st.integers(1, 512))
+    shape = draw(st.sampled_from(["same-number", "same-number", "one-direction", "mixed"]))
+    slots = []
+    if shape == "same-number":
+        for n in sorted(draw(st.sets(numbers, min_size=1, max_size=max(1, max_pdos // 2)))):
+            slots += [("rpdo", n), ("tpdo", n)]
+        if len(slots) < max_pdos and draw(st.booleans()):
+            extra = (draw(st.sampled_from(["rpdo", "tpdo"])), draw(numbers))
+            if extra not in slots:
+                slots.append(extra)
+    elif shape == "one-direction":
+        d = draw(st.sampled_from(["rpdo", "tpdo"]))
+        slots = [(d, n) for n in sorted(draw(st.sets(numbers, min_size=2, max_size=max_pdos)))]
+    else:
+        slots = sorted(draw(st.sets(st.tuples(st.sampled_from(["rpdo", "tpdo"]), numbers), min_size=2,
+                                    max_size=max_pdos)))
+    slots = list(draw(st.permutations(slots)))
+    source = draw(st.sampled_from(SOURCES + ["load_configuration", "from_od"]))
+    taken = set()
+    pdos = [_draw_pdo(draw, cands, d, n, source, taken) for d, n in slots]
+    case = {"app": app, "source": source, "pdos": pdos,
+            "addforms": draw(st.lists(st.sampled_from(ADDFORMS), min_size=1, max_size=4))}
+    _draw_reads(draw, case, source)
+    _draw_routes(draw, case)
+    return case
+
+
+# ---- directed families ------------------------------------------------------------------
+def _pdo(direction, number, cob, enabled, ttype, mapping, source, subs=(), pre=None, rtr=True, opt=None,
+         how="value", changes=None):
+    """A hand-made PDO description in the same layout the strategies produce."""
+    cfg = {"cob_id": cob, "enabled": enabled, "rtr_allowed": rtr, "trans_type": ttype,
+           "map": [list(e) for e in mapping]}
+    for name, sub, hi in OPT:
+        if opt and name in opt and sub in subs:
+            cfg[name] = opt[name]
+    p = {"dir": direction, "number": number, "dict_subs": sorted(subs), "device_subs": sorted(subs), "cfg": cfg,
+         "pre": pre or {"enabled": False, "cob": 0x200 + number, "type": 255, "entries": [], "inhibit": 0,
+                        "event": 0, "sync": 0}}
+    if source in ("from_od", "load_configuration"):
+        raw = cob | (0 if enabled else INVALID) | (0 if rtr else NO_RTR)
+        want = {"com:1": raw, "com:2": ttype, "map:0": len(mapping)}
+        for k, e in enumerate(mapping):
+            want[f"map:{k + 1}"] = _word(e)
+        for name, sub, hi in OPT:
+            if sub in subs:
+                want[f"com:{sub}"] = cfg.get(name, 0)
+                if ttype >= 254:
+                    cfg[name] = want[f"com:{sub}"]
+                else:
+                    cfg.pop(name, None)
+        p["od_values"] = {k: ({"value": v} if how == "value" else {"default": v}) for k, v in want.items()}
+        p["zero_over_default"] = False
+        p["intended"] = dict(cfg)
+    if source == "live_keep":
+        p["changes"] = list(changes or [])
+    return p
+
+
+DIRECTED_APP = [
+    {"kind": "var", "index": 0x2000, "name": "speed", "dt": rc.UNSIGNED16},
+    {"kind": "record", "index": 0x2100, "name": "rec", "members": [{"sub": 1, "name": "m1", "dt": rc.UNSIGNED8},
+                                                                   {"sub": 3, "name": "m3", "dt": rc.INTEGER16}]},
+    {"kind": "array", "index": 0x6000, "name": "inputs", "dt": rc.UNSIGNED8, "declared": 2,
+     "members": [{"sub": s, "dt": rc.UNSIGNED8} for s in (1, 2, 3, 8, 254)]},
+    {"kind": "array", "index": 0x6401, "name": "analogue", "dt": rc.INTEGER16, "declared": 1,
+     "members": [{"sub": s, "dt": rc.INTEGER16} for s in (1, 2, 4)]},
+]
+_MAPS = [
+    [(0x2000, 0, 16)],
+    [(0x6000, 2, 8), (0x2000, 0, 16)],                       # declared ARRAY element first
+    [(0x6000, 3, 8), (0x6000, 254, 8), (0x6401, 4, 16)],     # elements beyond the declared ones
+    [(0x2100, 3, 16), (0x6401, 1, 16), (0x6000, 8, 8), (0x6000, 1, 8)],
+    [],
+]
+
+
+def directed_cases(thorough=False):
+    """Small enumerated families for the two classes random search reaches slowly: (a) dictionaries
+    with several PDOs (same number in both directions, several of one direction) through every
+    collection route, (b) mappings of ARRAY elements (declared and beyond) through every source."""
+    pre_on = {"enabled": True, "cob": 0x3F1, "type": 254, "entries": [_word((0x6000, 3, 8)), _word((0x2000, 0, 16))],
+              "inhibit": 7, "event": 9, "sync": 0}
+    sources = ["attrs", "live_modify", "live_keep", "from_od", "load_configuration"]
+    # (a) several PDOs
+    shapes = [
+        [("rpdo", 1), ("tpdo", 1)],
+        [("tpdo", 2), ("rpdo", 2)],
+        [("rpdo", 512), ("tpdo", 512)],
+        [("rpdo", 1), ("rpdo", 2), ("rpdo", 5)],
+        [("tpdo", 1), ("tpdo", 3)],
+        [("rpdo", 1), ("tpdo", 1), ("rpdo", 2), ("tpdo", 2)],
+        [("tpdo", 4), ("rpdo", 3), ("tpdo", 3)],
+    ]
+    numbers = (1, 2, 3, 4, 5, 64, 511, 512) if thorough else ()
+    shapes += [[("tpdo", n), ("rpdo", n)] for n in numbers]
+    k = 0
+    for shape in shapes:
+        for source in sources:
+            for route in ROUTES:
+                for pattern in range(3 if thorough else 2):
+                    pdos = []
+                    for j, (d, n) in enumerate(shape):
+                        enabled = (True, j % 2 == 0, j % 2 == 1)[pattern]     # all / alternating / the others
+                        mapping = _MAPS[(k + j) % len(_MAPS)]
+                        ttype = [1, 255, 254, 0][(k + j) % 4]
+                        pdos.append(_pdo(d, n, 0x300 + 0x10 * j + (k % 7) + (0x10000 if (k + j) % 5 == 0 else 0),
+                                         enabled, ttype, mapping, source, subs=(3, 5) if j % 2 else (),
+                                         pre=dict(pre_on) if (j + k) % 3 == 0 else None, rtr=(j + k) % 4 != 0,
+                                         opt={"inhibit_time": 0, "event_timer": 100},
+                                         how="default" if (k + j) % 6 == 5 else "value",
+                                         changes=[["enabled"], ["map", "cob_id"], []][(k + j) % 3]))
+                    case = {"app": DIRECTED_APP, "source": source, "pdos": pdos,
+                            "addforms": [ADDFORMS[(k + i) % len(ADDFORMS)] for i in range(3)],
+                            "cfg_route": ROUTES[(k // 2) % 4] if source != "from_od" or route == "each" else route,
+                            "save_route": route, "read_route": ROUTES[(k + 1) % 4]}
+                    if source in ("live_keep", "from_od"):
+                        case["reads"] = 1 + (k % 3 == 0)
+                    k += 1
+                    yield case
+    # (b) ARRAY elements in a single PDO, every source x every way of naming the element
+    for source in sources:
+        for mi, mapping in enumerate(_MAPS[1:4]):
+            for form in ADDFORMS:
+                for d, n in (("tpdo", 1), ("rpdo", 4)) if thorough or form in ("num", "name_num") else (("tpdo", 1),):
+                    p = _pdo(d, n, 0x284 + mi, True, 1 if mi else 255, mapping, source, subs=(3,),
+                             pre=dict(pre_on) if mi == 1 else None, changes=["map"] if mi != 1 else [])
+                    case = dict(p)
+                    case.update({"app": DIRECTED_APP, "source": source, "addforms": [form]})
+                    if source == "live_keep":
+                        case["reads"] = 2 if mi == 1 else 1
+                    yield case
 
 
 def search(ctx):
     thorough = ctx.tier == "thorough"
-    ctx.hypothesis(case_strategy(), 12000 if thorough else 2000)
+    ctx.enumerate(directed_cases(thorough), "directed: several PDOs in one dictionary x source x collection route; "
+                                            "ARRAY elements (declared / beyond) x source x add_variable form")
+    # single-PDO and several-PDO dictionaries alternate, so that a budget cut on a loaded machine never
+    # removes one of the two families altogether (salts stay below 100: see Ctx.hyp_seed)
+    for rnd in range(6 if thorough else 1):
+        ctx.hypothesis(case_strategy(), 2000, salt=2 * rnd)
+        ctx.hypothesis(multi_strategy(max_pdos=6 if thorough else 4), 700, salt=2 * rnd + 1)
